@@ -270,10 +270,21 @@ class _Interp(object):
                         return None
                 return absent
         if isinstance(s, (ast.For, ast.AsyncFor, ast.While)):
-            self.reads(s.iter if not isinstance(s, ast.While) else s.test, absent)
+            head = s.iter if not isinstance(s, ast.While) else s.test
+            self.reads(head, absent)
+            if not isinstance(s, ast.While):
+                absent = self.effects(ast.Expr(value=head), absent)  # the iterable is evaluated once, before the loop
+            # what the body may add to the dict (in any number of rounds): only those keys stop being certainly absent;
+            # removals inside the body are possible, not certain
+            saved_added, saved_cleared = self.added_all, self.cleared
+            self.added_all, self.cleared = set(), False
             self.block(s.body, set())
             self.block(s.orelse, set())
-            return set()
+            body_added, body_cleared = self.added_all, self.cleared
+            self.added_all, self.cleared = saved_added | body_added, saved_cleared or body_cleared
+            if body_cleared:
+                return set()
+            return set(absent) - body_added
         if isinstance(s, (ast.With, ast.AsyncWith)):
             for it in s.items:
                 self.reads(it.context_expr, absent)
